@@ -208,7 +208,7 @@ pub fn run(ctx: &Ctx) -> i32 {
         }
       }
       Job::Class(d) => {
-        let hw: Vec<u64> = if *d == 20 || *d == 29 { halfword_sweep_cells(*d).into_iter().step_by(if ctx.quick() { 16 } else { 3 }).collect() } else { vec![] };
+        let hw: Vec<u64> = if *d == 20 || *d == 29 { halfword_sweep_cells(*d).into_iter().step_by(if ctx.quick() { 48 } else { 3 }).collect() } else { vec![] };
         for h in class_cells(*d).into_iter().chain(carry_cells(*d, false).into_iter()).chain(hw.into_iter()) {
           do_cell(*d, h, &mut part, "border-class-cells-7x7-offsets");
         }
